@@ -5,6 +5,7 @@ import (
 	"os"
 	"sort"
 	"strings"
+	"sync"
 	"time"
 
 	"github.com/bbva/qed/crypto/hashing"
@@ -333,6 +334,41 @@ func senderCmd(out *cq.Out, seed uint64, tier string) {
 				sent[s.Version] = &p
 			}
 			total += k
+		}
+		// several clients insert at the same time: the proposers resume in any order after raft has applied their entries,
+		// yet every snapshot issued must be handed to the sender exactly once
+		{
+			var mu sync.Mutex
+			var wg sync.WaitGroup
+			for g := 0; g < 16; g++ {
+				wg.Add(1)
+				go func(g int) {
+					defer wg.Done()
+					for b := 0; b < 80; b++ {
+						k := 1
+						if b%5 == 4 {
+							k = 3
+						}
+						var evs [][]byte
+						for j := 0; j < k; j++ {
+							evs = append(evs, []byte(fmt.Sprintf("sndc%d-%d-%d-%d", r, g, b, j)))
+						}
+						snaps, err := n.AddBulk(evs)
+						if err != nil {
+							return
+						}
+						mu.Lock()
+						for _, s := range snaps {
+							p := protocol.Snapshot(*s)
+							sent[s.Version] = &p
+						}
+						total += len(snaps)
+						mu.Unlock()
+					}
+				}(g)
+			}
+			wg.Wait()
+			desc["concurrent_proposers"] = 16
 		}
 		bs, undec := collectBatches(col, total, 3*time.Second)
 		sd.Stop()
